@@ -487,6 +487,41 @@ def run(prop, tier, rep):
             rep.undecided.append(oid)
     for fid, where in sorted(present.items()):
         rep.known_finding(fid, where)
+    if rep.errors and not rep.violations:
+        # a unit could not be verified at all (construct outside the engine's subset): before answering "cannot decide", look for
+        # a generated file on which the real decoder contradicts the executable specification - a real failing input is a
+        # violation whatever the state of the proof
+        tried = set()
+        for ui, u in enumerate(units):
+            rs = by_unit.get(ui, [])
+            tool = (u.get("replay") or {}).get("tool")
+            if tool and tool not in tried and any(r["error"] for r in rs):
+                tried.add(tool)
+                try:
+                    from vcheck import differential
+                    w = differential.find_failing(prop, tool)
+                except Exception:  # noqa
+                    w = None
+                if w is not None:
+                    rep.violation("%s/%s/generated-file search after the unit could not be verified" % (prop, u["name"]),
+                                  dict(detail="; ".join(sorted({r["error"] for r in rs if r["error"]}))[:300], replay=w,
+                                       note="the proof could not be attempted; this input shows the property violated on the real code"), True)
+    if prop == "C17" and not os.environ.get("VERIF_ONLY_UNITS"):
+        # the record walk of veftopng.start (squashed files) is under contract only through unsquash: bounded stand-in on whole files
+        try:
+            from vcheck import differential
+            differential.run_tool(prop, rep, "veftopng", rep.seed, "squashed VEF files through start(): record walk not under contract")
+        except Exception as e:  # noqa
+            rep.errors.append("VEF stand-in could not run: %s: %s" % (type(e).__name__, str(e)[:300]))
+    if prop in ("C18", "C19") and not os.environ.get("VERIF_ONLY_UNITS"):
+        # static frame rule on how the decoders open their files (a pipe equals a file, an output file is created empty)
+        from vcheck import io_rules
+        t0 = time.time()
+        probs = io_rules.scan(os.environ.get("VERIF_REPO", "/repo"))
+        oid = "%s/io/files are opened for plain buffered reading or truncating writing" % prop
+        rep.add_obligation(oid, "proved" if not probs else "refuted", "ast-scan", time.time() - t0, "; ".join(probs))
+        if probs:
+            rep.violation(oid, dict(detail="static rule over the decoder sources", replay=dict(problems=probs)), False)
     if prop == "C16" and not os.environ.get("VERIF_ONLY_UNITS"):
         # PIX pixel positions are not under contract (DESIGN 0.4): a small bounded stand-in runs with every C16 check
         try:
